@@ -109,6 +109,7 @@ func cmdCheck(args []string) int {
 			run.obls = append(run.obls, r.tr.obls...)
 		}
 	}
+	run.obls = append(run.obls, v.lemmaObligations(*prop)...)
 	// solve
 	var wg sync.WaitGroup
 	var mu sync.Mutex
